@@ -151,7 +151,13 @@ def gen(rng, n):
             cwd, arg = '/', ['/']
         rargv = arg + (['--sort', sort] if sort else []) + ([tdopt[0], tdopt[1]] if len(tdopt) == 2 else []) + (['--overwrite'] if rng.random() < 0.2 else [])
         steps.append({'cmd': 'restore', 'argv': rargv, 'stdin': '\n', 'cwd_override': cwd})
-        scn = lay.scenario(steps, cwd=cwd, extra=nodes)
+        if scope_kind == 'cwd-parent' and not rmparent and rng.random() < 0.4:
+            # the directory was entered through a symbolic link and the shell says so in $PWD: the entry recorded its PHYSICAL parent
+            # (trash-put resolves it), and that is the directory trash-restore is asked about
+            nodes.append(['l', '/plnk', parent])
+            steps[-1]['cwd_override'] = '/plnk'
+            steps[-1]['env'] = {'PWD': '/plnk'}
+        scn = lay.scenario(steps, cwd='/' if steps[-1]['cwd_override'] == '/plnk' else cwd, extra=nodes)
         scns.append(scn)
         metas.append({'full': full, 'kind': kind, 'where': where, 'sort': sort, 'scope': scope_kind, 'rmparent': rmparent, 'name': name,
                       'td': len(tdopt) == 2, 'xdev': bool(putenv), 'parent': parent})
